@@ -631,7 +631,7 @@ fn session(s: &Session, emit: &mut dyn FnMut(String)) {
 }
 
 // ------------------------------------------------------------------------------------------------ generation / execution
-const PROFILES: &[&str] = &["mix", "scalars", "colls", "ptrs", "deque", "hash", "btree", "mix"];
+const PROFILES: &[&str] = &["colls", "hash", "btree", "mix", "scalars", "ptrs", "deque", "mix"];
 
 pub fn gen_requests(rng: &mut Rng, n: u64, out: &mut Out) -> Vec<String> {
     let tcs: Vec<String> = std::env::var("C06_TOOLCHAINS").unwrap_or("1.89".into()).split(',').map(String::from).collect();
